@@ -32,6 +32,31 @@ let () =
       let hd = String.split_on_char ',' (String.sub line 0 p) in
       let body = String.sub line (p+1) (String.length line - p - 1) in
       (match hd with
+       | ["T"; wmtu; rmtu] ->
+         (* PacketizedProxyDataIO on its own: a writer and a reader joined by a byte pipe *)
+         let wmtu = n_of_string wmtu and rmtu = n_of_string rmtu in
+         let ops = List.filter (fun s -> s <> "") (String.split_on_char ';' body) in
+         let buf = Buffer.create 256 in
+         let w = ref pw_init and r = ref pr_init and pipe = ref [] in
+         List.iter (fun s ->
+           match String.split_on_char ':' s with
+           | ["W"; hx; a1; a2] ->
+             let ((w', took), res) = pwrite wmtu !w (bytes_of_hex hx) (n_of_string a1) (n_of_string a2) in
+             w := w'; pipe := !pipe @ took;
+             (match res with WErr -> Buffer.add_string buf "We" | WTook n -> Buffer.add_string buf ("W" ^ string_of_int (int_of_n n)));
+             Buffer.add_string buf (Printf.sprintf "[%s]/%d/%d;" (hex_of_bytes took) (int_of_n w'.pw_sent) (List.length w'.pw_buf))
+           | ["F"; acc] ->
+             let (w', took) = pw_flush !w (n_of_string acc) in
+             w := w'; pipe := !pipe @ took;
+             Buffer.add_string buf (Printf.sprintf "F[%s]/%d/%d;" (hex_of_bytes took) (int_of_n w'.pw_sent) (List.length w'.pw_buf))
+           | ["R"; usize; a1; a2] ->
+             let usize = min (int_of_string usize) 70000 in
+             let ((r', pipe'), res) = pread rmtu !r (n_of_int usize) !pipe (n_of_string a1) (n_of_string a2) in
+             r := r'; pipe := pipe';
+             (match res with None -> Buffer.add_string buf "Re" | Some b -> Buffer.add_string buf (Printf.sprintf "R%d:%s" (List.length b) (hex_of_bytes b)));
+             Buffer.add_string buf (Printf.sprintf "/%d/%d/%d;" (List.length r'.pr_hdr) (int_of_n r'.pr_size) (List.length r'.pr_data))
+           | _ -> Buffer.add_string buf "?;") ops;
+         Printf.printf "%d %s\n" k (Buffer.contents buf)
        | kind :: mode :: rmtu :: rmagic :: rsex :: rmax :: misc :: _ ->
          let mini = (kind = "N") in
          let rmtu_eff = if mini then mclamp_mtu (n_of_string rmtu) else clamp_mtu (n_of_string rmtu) in
